@@ -1,7 +1,7 @@
 /*@UNIT
 {
   "property": "C08",
-  "properties": ["C19"],
+  "properties": ["C19", "C07"],
   "unit": "parse_client_hello_extensions",
   "function": "parseClientHelloExtensions",
   "source": "matrixssl/extDecode.c",
@@ -68,9 +68,27 @@ void *memchr(const void *s, int c, size_t n)
 }
 int32 memcmpct(const void *s1, const void *s2, size_t len) { return memcmp(s1, s2, len) != 0; }
 
+/* does the extension block (2-byte total length, then type16 | len16 | body entries) contain an extension of type t
+   among its first three entries (the bound of this unit) */
+static int vr_has_ext(unsigned t)
+{
+    unsigned off = 2, k;
+    for (k = 0; k < 3; k++)
+    {
+        if (off + 4 > g_in.len) { return 0; }
+        if ((unsigned) ((g_in.buf[off] << 8) | g_in.buf[off + 1]) == t) { return 1; }
+        off += 4 + (unsigned) ((g_in.buf[off + 2] << 8) | g_in.buf[off + 3]);
+    }
+    return 0;
+}
+static unsigned g_require_ems0;
 #define START (BUFN - g_in.len)
 #define OK (RET == PS_SUCCESS)
+/* C07  extended master secret (RFC 7627) is "in force" only if the client offered it in this ClientHello, and a
+ * server configured to require it refuses a ClientHello without it */
 #define POSTS(P) \
+    P(C07_ems_is_recorded_only_if_the_client_offered_it, IMPLIES(OK && g_ssl.extFlags.extended_master_secret, vr_has_ext(EXT_EXTENDED_MASTER_SECRET))) \
+    P(C07_required_ems_is_enforced,    IMPLIES(OK && g_require_ems0, g_ssl.extFlags.extended_master_secret == 1)) \
     P(verdict_is_documented,           OK || RET == MATRIXSSL_ERROR) \
     P(refusal_carries_an_alert,        IMPLIES(!OK, g_ssl.err != SSL_ALERT_NONE)) \
     P(acceptance_has_no_pending_alert, IMPLIES(OK, g_ssl.err == SSL_ALERT_NONE)) \
@@ -109,6 +127,7 @@ HARNESS_BEGIN
     __CPROVER_assume(g_ssl.sec.keySelect.peerSigAlgsLen <= TLS_MAX_SIGNATURE_ALGORITHMS && g_ssl.sessionIdLen <= SSL_MAX_SESSION_ID_SIZE && g_ssl.supportedSigAlgsLen <= TLS_MAX_SIGNATURE_ALGORITHMS);
     for (i = 0; i < BUFN; i++) { g_store[i] = (i >= (unsigned) (BUFN - in.len)) ? in.buf[i - (BUFN - in.len)] : 0; }
     g_cur = g_store + (BUFN - in.len);
+    g_require_ems0 = g_ssl.extFlags.require_extended_master_secret;
     vr_ret = parseClientHelloExtensions(&g_ssl, &g_cur, in.len);
     POSTS(NATIVE_CHECK)
 #ifdef CANARY
